@@ -28,6 +28,10 @@ structure Beh where
   down : Bool := false
   add  : AddMode := .accept
   reg  : RegMode := .accept
+  /-- the next `once` add_appointment requests are answered as `onceAdd` (a transient kind),
+  whatever `add` says: a tower that recovers between two attempts of one back-off round -/
+  once : Nat := 0
+  onceAdd : AddMode := .garbage
 deriving Repr
 
 /-- `net::http::send_appointment`'s result, as the two callers distinguish it -/
@@ -40,14 +44,17 @@ inductive Outcome where
   | wrongSigner   -- `SignatureError(proof)`
 deriving DecidableEq, Repr
 
-def classify (b : Beh) : Outcome :=
-  if b.down then .connErr else
-  match b.add with
+def classifyMode (m : AddMode) : Outcome :=
+  match m with
   | .accept => .accepted
   | .subErr => .subErr
   | .reject => .rejected
   | .garbage => .unparsable
   | .wrongSigner => .wrongSigner
+
+def classify (b : Beh) : Outcome :=
+  if b.down then .connErr else
+  if b.once > 0 then classifyMode b.onceAdd else classifyMode b.add
 
 structure St where
   client : Client := Client.fresh
@@ -64,6 +71,11 @@ def body : Body := { blob := 0, tsd := 42 }
 def rcpt : ApptReceipt := { start := 0, usig := 0, tsig := 0 }
 
 def St.status (s : St) (t : TowerId) : Option TStatus := (s.client.towers t).map (·.status)
+
+/-- one add_appointment request reached tower `t`: a one-shot answer is used up -/
+def St.consume (s : St) (t : TowerId) : St :=
+  if (s.beh t).down || (s.beh t).once = 0 then s
+  else { s with beh := fun x => if x = t then { s.beh t with once := (s.beh t).once - 1 } else s.beh x }
 
 def St.withClient (s : St) (c : Client) : St := { s with client := c }
 
@@ -138,7 +150,7 @@ def runOnce (s : St) (t : TowerId) (locs : List Loc) : St × RunResult :=
   | (s1, some r) => (s1, r)
   | (s1, none) =>
     let (c, r) := sendAll s1.client t (classify (s1.beh t)) locs
-    (s1.withClient c, r)
+    ((s1.withClient c).consume t, r)
 
 /-- the back-off loop under an unchanging tower: a transient error is retried; when the same
 call fails again in the same state the strategy eventually runs out of time (give up) -/
@@ -205,10 +217,19 @@ def hookTower (s : St) (t : TowerId) (l : Loc) : St × Bool :=
       (s.withClient (s.client.addPending t l body).1, s.sendToRetrier t)
 
 /-- one tower's turn in the handler, then the retrier it woke up -/
+def St.consumeIf (s : St) (b : Bool) (t : TowerId) : St := if b then s.consume t else s
+
+/-- does the handler make a request to tower `t`? only when it is shown reachable and has not
+answered for `l` yet -/
+def asked (acc : St) (t : TowerId) (l : Loc) : Bool :=
+  match acc.client.towers t with
+  | some sm => sm.status = .reachable && !((acc.client.store.rcpts t l).isSome || sm.invalid.contains l)
+  | none => false
+
 def notifyTower (acc : St) (t : TowerId) (l : Loc) : St :=
   match hookTower acc t l with
-  | (s1, true) => s1.retry t (s1.pendingOf t)
-  | (s1, false) => s1
+  | (s1, true) => (s1.consumeIf (asked acc t l) t).retry t (s1.pendingOf t)
+  | (s1, false) => s1.consumeIf (asked acc t l) t
 
 /-- the handler over all towers -/
 def St.notify (s : St) (l : Loc) : St :=
